@@ -387,6 +387,9 @@ func init() {
 			}
 			return ex.C.False()
 		},
+		"regexp.MustCompile": func(ex *Exec, g *Goroutine, cs *callSite, args []Value) Value {
+			return Ptr{Tag: &Opaque{Kind: "regexp", Data: args[0]}}
+		},
 		"runtime/debug.FreeOSMemory":                 nop,
 		"runtime.Gosched":                            nop,
 		"runtime.GC":                                 nop,
